@@ -20,7 +20,8 @@ import c08_gen as gen
 import c08_validate as val
 
 THEOREMS = ['C08_volume_str_counts', 'C08_write_wf', 'C08_prune_preserves_wf',
-            'C08_prune_total', 'C08_convert_tail_wf',
+            'C08_prune_total', 'C08_convert_tail_wf', 'C08_convert_tail_wf_R',
+            'C08_print_parse_roundtrip',
             'C08_remove_empty_volumes_ok', 'C08_geomcomp_partition',
             'C08_bc_defined',
             'C08_composition_missing_refuted', 'C08_wf_fileb_ok',
@@ -320,7 +321,8 @@ def run(res, tier, seed, proofs_ok):
                 res.sample({'deck': deck_text, 'args': args,
                             'file_bytes': len(conv.text)})
     bad, errs = run_multi('c08_tie', ['check_file', 'check_verdict',
-                                      'outside_guard', 'stage0_ok'], cases)
+                                      'outside_guard', 'stage0_ok', 'check_reader'],
+                          cases)
     n_in = len(bad['outside_guard']) if not errs else 0   # indices where outside_guard = false
     res.extra['guard'] = {'cases': len(cases),
                           'inside_wf_state (hypotheses of C08_write_wf hold '
@@ -354,6 +356,21 @@ def run(res, tier, seed, proofs_ok):
                       f'{" ".join(args) or "default"}]',
                       {'input': {'deck': deck_text, 'args': args},
                        'theorem_or_correspondence': 'tie:stage0'},
+                      found_input=False)
+    res.obligation(f'tie:reader ({len(cases)} runs: the Coq reader parse_t4 on the '
+                   'bytes of the real file accepts exactly the files the '
+                   'validator accepts, print_t4 of what it read gives the same '
+                   'bytes, wf_fileb of what it read = validator verdict)',
+                   not bad['check_reader'] and not errs,
+                   f'{len(bad["check_reader"])} disagreements')
+    for idx in bad['check_reader'][:10]:
+        deck_text, args, exc, verdict, _open = meta[idx]
+        res.violation('correspondence',
+                      'the Coq reader and the validator disagree on the bytes '
+                      f'of the written file (validator valid={verdict}) '
+                      f'[options {" ".join(args) or "default"}]',
+                      {'input': {'deck': deck_text, 'args': args},
+                       'theorem_or_correspondence': 'tie:reader'},
                       found_input=False)
     if errs:
         res.violation('correspondence',
